@@ -699,6 +699,8 @@ where
     let shard_index = self.shared.get_shard_index_from_hash(hash);
     let shard = &self.shared.store.shards[shard_index];
 
+    #[cfg(excsn_fibre_verif)]
+    crate::verif_sched::point("fetch_with:before_map_read");
     let hit_value = {
       let guard = shard.map.read();
       if let Some((found_key, entry)) = guard.get_key_value(key) {
@@ -786,6 +788,8 @@ where
     V: Send + Sync + 'static,
     H: BuildHasher + Clone + Send + Sync,
   {
+    #[cfg(excsn_fibre_verif)]
+    crate::verif_sched::point("load:before_pending_lock");
     let mut am_leader = false;
     let future = loop {
       // 1. Lock the pending loads map to ensure only one "leader" is chosen.
@@ -817,8 +821,12 @@ where
 
     // 4. If we became the leader, spawn the loader task.
     //    This happens *after* the `pending_loads` lock is released.
+    #[cfg(excsn_fibre_verif)]
+    crate::verif_sched::point(if am_leader { "load:leader_before_spawn" } else { "load:joined_before_future_lock" });
     if am_leader {
       CacheShared::spawn_loader_task(Arc::clone(&self.shared), key.clone(), future.clone());
+      #[cfg(excsn_fibre_verif)]
+      crate::verif_sched::point("load:leader_before_future_lock");
     }
 
     // 5. All threads/tasks (leaders and waiters) wait on the same future.
@@ -836,7 +844,11 @@ where
             .waiters
             .push_back(crate::loader::Waiter::Sync(thread::current()));
           drop(inner); // IMPORTANT: Unlock before parking.
+          #[cfg(excsn_fibre_verif)]
+          crate::verif_sched::before_park();
           thread::park();
+          #[cfg(excsn_fibre_verif)]
+          crate::verif_sched::after_park();
           inner = future.inner.lock(); // Re-acquire lock after being woken up.
         }
       }
